@@ -59,6 +59,10 @@ def set_dimensions(poly: PolyLike, dimensions: Optional[int] = None) -> ndpoly:
         exponents = poly.exponents[:, :dimensions]
         exponents = exponents[indices]
         coefficients = [coeff for coeff, idx in zip(poly.coefficients, indices) if idx]
+        if not coefficients:
+            # every term involved a dropped indeterminant: the zero polynomial
+            exponents = numpy.zeros((1, dimensions), dtype=int)
+            coefficients = [numpy.zeros(poly.shape, dtype=poly.dtype)]
         names = poly.names[:dimensions]
 
     else:
